@@ -23,3 +23,10 @@ func (*AllDataOwnership) ExclusivelyOwnsTable(uri string, startKey, endKey []byt
 }
 
 var _ DataOwnership = &AllDataOwnership{}
+
+// TableRangeOwnership is an optional extension of DataOwnership for owners that
+// know their key range: a table whose key range does not overlap it holds no
+// data of the owner.
+type TableRangeOwnership interface {
+	OverlapsTable(startKey, endKey []byte) bool
+}
